@@ -126,6 +126,8 @@ def impl_main(payload):
             try:
                 if o[0] == "U":
                     pop = []
+                    for ob_ in objs:
+                        ob_.listed_twice = False
                     for (t, k1, k2) in o[1]:
                         # a fresh object per offer unless the tag was offered before in this same call
                         ob = objs[t]
@@ -133,6 +135,7 @@ def impl_main(payload):
                             same_keys = (enc(ob.fitness), enc(ob.k2)) == (enc(fl(k1)), enc(fl(k2)))
                             if same_keys:
                                 # the very same object listed twice in one population ([a, b, a]): two independent copies
+                                ob.listed_twice = True         # (one object carries one stamp: no arrival order between its copies)
                                 pop.append(ob)
                                 offers.append((t, ob.fitness, ob.k2, ob.stamp))
                                 continue
@@ -183,6 +186,8 @@ def impl_main(payload):
             if len({id(it) for it in items}) != len(items):
                 viol.append("two slots hold the same object: residents are not independent copies of each other")
             for i in range(len(items) - 1):
+                if getattr(items[i], "listed_twice", False) or getattr(items[i + 1], "listed_twice", False):
+                    continue
                 if keys[i] == keys[i + 1] and items[i].stamp > items[i + 1].stamp:
                     viol.append("equal keys not in arrival order")
                     break
